@@ -6,7 +6,14 @@ reactor; random sequences of mutate / set time / write[label] / load / listing /
 split / close replayed on the real object and on the stateful Lean model; every answer compared.
 Tie (2) moved objects: reference reactor, two assemblies swapped between writes, histories of blocks
 and assemblies whose values encode their serial numbers.
-Tie (3) crash points: a real `Operator` with the real main + database interfaces and a fault
+Tie (1b) parameters without a dataset in early snapshots: in forked children (the class-level `assigned` flags die with them),
+parameters nothing has assigned yet become assigned at random steps (or never / after the last write); histories over random
+subsets of steps x parameters through Database.getHistory/getHistories, DatabaseInterface.getHistory/getHistories (timeSteps
+explicit and None) and HistoryTrackerInterface.getBlockHistoryVal (with and without preloadBlockHistoryVals) vs
+`SnapStore.writeP/dbHistory/dbiHistory/blockHistoryVal`; the absence of the dataset is verified on the file.
+Tie (4) restart runs: a completed run restarted from its database at every later (cycle, node) vs `fileAfterRun` with
+`opened = restartStore`.
+Tie (3) crash points (also on generated stacks: bystanders, flags, orders, with and without main): a real `Operator` with the real main + database interfaces and a fault
 injecting interface at EVERY stack position aborting at EVERY one of its hook calls (every
 hook x cycle x node) of several run shapes inside `with o:` - by an ordinary exception and by
 BaseExceptions that are not Exceptions (sys.exit / SystemExit, KeyboardInterrupt); the .h5 left in the working directory
@@ -23,9 +30,15 @@ PROP_MODULES = ["ArmiVerif.Props.C06"]
 PARTIAL = ("PROVED on the model: write_refuses_overwrite, write_then_load, write_isolated(_seq), listing_exact, "
            "listing_sorted_by_name, name_order_iff / name_le_imp / name_injective / parse_name for all c,n<100 (decided "
            "counter-example at 100), listing_sorted (genTimeSteps = written steps in chronological order), name_fresh, "
-           "history_spec + history_live, merge_exact (start step present or absent), split_exact (attribute renumbered too), "
+           "history_spec + history_live, histories over selected steps x parameters with parameters that have NO dataset in early "
+           "snapshots (writeP_storedValue: value-or-default whether or not the class-level assigned flag was set at the write; "
+           "dbHistory_value / dbHistoryAll_value / dbiHistory_now / dbiHistory_past / blockHistoryVal_written; "
+           "history_value_or_default over every sequence of assignments, clock changes and writes), "
+           "merge_exact (start step present or absent), split_exact (attribute renumbered too), "
            "split_refused_unchanged / splitValid_iff / split_some_valid, "
-           "db_between, crash_file_spec (no freshness hypothesis), crash_before_open, complete_run_spec. "
+           "db_between, crash_file_spec (for a restart run with the hypothesis that the merged history holds no error snapshot of the "
+           "failing node), crash_before_open, complete_run_spec, restartStore_spec + restart_run_spec (a completed restart run holds "
+           "exactly the earlier steps of the reload database, unchanged, then its own nodes and EOL). "
            "CORRESPONDENCE ONLY: that getHistories reports steps in first-occurrence order (order of the returned dict), "
            "the content of a refused split/merge, which interface opens the database (parameter `opener`). "
            "OUTSIDE THE MODEL: HDF5 storage, file-system atomicity of safeMove, a failure inside the writer itself, process "
@@ -167,9 +180,9 @@ class RealHistory:
                     key = ("history-after-split-keyed-by-old-cycle" if dict(got) == stale else "history-value-per-step")
                     ctx.fail(key, "a history returns for each (listed) step the value the object had at that step",
                              {"ops": self.trace}, observed=got, expected=sorted(exp.items()))
-                if who == BLOCK and any(v != 0.0 for v in h["flux"].values()):
-                    ctx.fail("history-default-when-unset", "an unset parameter reads as its default in a history",
-                             {"ops": self.trace}, observed=dict(h["flux"]))
+                if who == BLOCK and (any(v != 0.0 for v in h["flux"].values()) or list(h["flux"].keys()) != list(h[par].keys())):
+                    ctx.fail("history-default-when-unset", "an unset parameter reads as its default in a history, at every step listed",
+                             {"ops": self.trace}, observed=sorted(dict(h["flux"]).items()), expected=[(k, 0.0) for k in h[par].keys()])
                 return "[" + ",".join(f"({k[0]},{k[1]}):{v}" for k, v in got) + "]"
             if kind == "merge":
                 _, sc, sn = op
@@ -372,7 +385,7 @@ def gen_history(rng):
 
 
 def section_histories(ctx):
-    n = ctx.pick(30, 1200)
+    n = ctx.pick(26, 1200)
     hists = FIXED + [gen_history(ctx.rng) for _ in range(n)]
     reqs, impl, cases = [], [], []
     with common.scratch_dir():
@@ -405,6 +418,428 @@ def section_histories(ctx):
     ctx.evaluations += len(reqs)
     ctx.traces += len(hists)
     ctx.count("F14: labelled snapshot supplies the history value of its node (observed, within the property)", 1)
+
+
+# --------------------------------------------------------------------------- (1b) parameters whose dataset is absent from early snapshots
+def _fresh_params(obj, rng, k, exclude=()):
+    """k parameter definitions of obj's type that NOTHING in this process has assigned yet (class-level flag NEVER), stored in
+    the database, with a plain setter and an integral numeric default; non-zero defaults preferred."""
+    from armi.reactor.parameters.parameterDefinitions import NEVER
+    dims = set(getattr(obj, "DIMENSION_NAMES", ()) or ())
+    cand = [pd for pd in obj.p.paramDefs
+            if pd.assigned == NEVER and pd.saveToDB and pd.serializer is None and pd.name not in dims and pd.name not in exclude
+            and isinstance(pd.default, (int, float)) and not isinstance(pd.default, bool) and float(pd.default).is_integer()
+            and abs(pd.default) < 1e9 and "setter" not in pd._setter.__code__.co_freevars]
+    cand.sort(key=lambda pd: pd.name)
+    nz = [pd for pd in cand if pd.default != 0]
+    out = []
+    while len(out) < k and cand:
+        src = nz if (nz and rng.random() < 0.6) else cand
+        pd = rng.choice(src)
+        cand.remove(pd)
+        if pd in nz:
+            nz.remove(pd)
+        out.append(pd)
+    return out, len(cand) + len(out)
+
+
+def absent_history(job):
+    """ONE history, run in a forked child (the class-level `assigned` flags it sets die with the child): parameters become
+    assigned at random steps (or never), every step is written, histories are requested over subsets of steps x parameters
+    through Database.getHistory / getHistories, DatabaseInterface.getHistory / getHistories and
+    HistoryTrackerInterface.getBlockHistoryVal. Returns request/answer streams per object type, oracle failures, counts."""
+    import copy, random
+    seed, hi = job
+    rng = random.Random(seed)
+    res = {"streams": [], "fails": [], "counts": {}, "infra": None, "canon": None, "sample": None}
+
+    def count(k, n=1):
+        res["counts"][k] = res["counts"].get(k, 0) + n
+    case0 = {"absent_history": [seed, hi]}
+    try:
+        with common.quiet():
+            o, r = load_small({"db": True})
+            for loc in ((1, 0, 0), (0, 1, 0)):
+                a = copy.deepcopy(r.core[0]); a.makeUnique()
+                r.core.add(a, r.core.spatialGrid[loc])
+        dbi, hti = o.getInterface("database"), o.getInterface("history")
+        if dbi is None or hti is None:
+            res["infra"] = "default stack lacks the database / history interface"
+            return res
+        dbi.initDB(fName=f"abs{hi}.h5")
+        db = dbi.database
+        objs = {"HexBlock": [b for a in r.core for b in a], "HexAssembly": list(r.core), "Core": [r.core]}
+        control = {"HexBlock": "power", "HexAssembly": "chargeTime", "Core": "keff"}
+        T = rng.randint(3, 6)
+        times, c, n = [], rng.randint(0, 1), rng.randint(0, 1)
+        for _ in range(T):
+            times.append((c, n))
+            if rng.random() < 0.65:
+                n += rng.choice([1, 1, 2])
+            else:
+                c, n = c + 1, rng.choice([0, 0, 1])
+        # ---- parameters: per type, fresh ones (each with the step at which it FIRST gets assigned, or never) + a control
+        params, pid = {}, 0        # type -> list of dict(id, name, default, first)
+        for tname, k in (("HexBlock", rng.randint(2, 3)), ("HexAssembly", rng.randint(1, 2)), ("Core", rng.randint(1, 2))):
+            own_control = tname == "HexAssembly"       # Core.add / removeAssembly assign chargeTime themselves: use a fresh parameter
+            if own_control:
+                k += 1
+            # not the parameters armi assigns by itself while writing / moving (probed: DatabaseInterface.writeDBEveryNode stamps
+            # core.p.minutesSinceStart, Core.removeAssembly the discharge time, Core.add the charge time)
+            pds, poolsize = _fresh_params(objs[tname][0], rng, k, exclude=tuple(control.values()) + (
+                "minutesSinceStart", "dischargeTime", "chargeTime", "timeOfStart"))
+            if len(pds) < k:
+                res["infra"] = f"no never-assigned {tname} parameters left in this process ({poolsize})"
+                return res
+            if hi == 0:
+                count(f"absent: never-assigned {tname} parameters to choose from (first history)", poolsize)
+            lst = []
+            pid += 1
+            if own_control:
+                lst.append({"id": pid, "name": pds[0].name, "default": int(pds[0].default), "first": 0, "control": True})
+                pds = pds[1:]
+            else:
+                lst.append({"id": pid, "name": control[tname], "default": int(objs[tname][0].p.paramDefs[control[tname]].default or 0),
+                            "first": 0, "control": True})
+            for pd in pds:
+                pid += 1
+                first = rng.choice(list(range(T)) + list(range(1, T)) + [None, "after"])
+                lst.append({"id": pid, "name": pd.name, "default": int(pd.default), "first": first, "control": False})
+            params[tname] = lst
+        reqs = {t: ["reset", "preset [" + ",".join(f"[{q['id']},{q['default']}]" for q in params[t]) + "]"] for t in objs}
+        impl = {t: ["ok", "ok"] for t in objs}
+        cases = {t: [dict(case0, type=t, op="reset")] * 2 for t in objs}
+        trace = []
+
+        def emit(t, req, ans, extra=None):
+            reqs[t].append(req); impl[t].append(ans); cases[t].append(dict(case0, type=t, trace=list(trace), **(extra or {})))
+
+        live = {}          # (serial, pid) -> value, for assigned (object, parameter) pairs      [shadow]
+        snaps = {}         # (c, n) -> {(serial, pid): value-or-default}, and which pids had become assigned   [shadow]
+        flagged = set()    # pids whose definition has been assigned on some object
+        written = []
+        val = 10
+
+        def cur(sn, q):
+            return live.get((sn, q["id"]), q["default"])
+
+        def assign_some(t, q, everyone=False):
+            nonlocal val
+            chosen = [x for x in objs[t] if everyone or rng.random() < 0.5] or [rng.choice(objs[t])]
+            for x in chosen:
+                val += rng.randint(1, 7)
+                x.p[q["name"]] = float(val)
+                live[(int(x.p.serialNum), q["id"])] = val
+                flagged.add(q["id"])
+                emit(t, f"passign {int(x.p.serialNum)} {q['id']} {val}", "ok")
+                trace.append(["assign", t, int(x.p.serialNum), q["name"], val])
+
+        def set_time(step):
+            r.p.cycle, r.p.timeNode = step
+            for t in objs:
+                emit(t, f"ptime {step[0]} {step[1]}", "ok")
+            trace.append(["time", step[0], step[1]])
+
+        def fmt(h, plist):
+            out, seen = [], set()
+            for q in plist:
+                if q["id"] in seen or q["name"] not in h:
+                    continue
+                seen.add(q["id"])
+                out.append(f"{q['id']}:[" + ",".join(f"({k[0]},{k[1]}):{int(v)}" for k, v in h[q["name"]].items()) + "]")
+            return ";".join(out)
+
+        def judge(kind, t, x, plist, steps, h, now_req):
+            sn = int(x.p.serialNum)
+            now = (int(r.p.cycle), int(r.p.timeNode))
+            for q in plist:
+                for st in steps:
+                    if st == now and now_req and (kind.startswith("dbi") or st not in snaps):
+                        # the CURRENT step: DatabaseInterface.getHistory/getHistories report the live value ("knows how to return
+                        # the current value as well"), getBlockHistoryVal does when the step is not written yet
+                        want, absent = cur(sn, q), False
+                    elif st in snaps:
+                        want, absent = snaps[st]["v"][(sn, q["id"])], q["id"] not in snaps[st]["flagged"]
+                    else:
+                        continue
+                    got = h.get(q["name"], {}).get(st, "missing") if h is not None else "raised"
+                    count("absent: (step, parameter) pairs judged" + (" - dataset absent in that snapshot" if absent else ""))
+                    if got in ("missing", "raised") or int(got) != want or float(got) != float(want):
+                        res["fails"].append((
+                            "history-default-when-dataset-absent" if absent else "history-value-at-selected-step",
+                            "a parameter history returns for each requested step the value the object had at that step, or the "
+                            "DEFAULT if it was unset - also when nobody had assigned that parameter yet when the step was written "
+                            "(no dataset in that snapshot; loading it yields the default)",
+                            dict(case0, via=kind, type=t, serial=sn, parameter=q["name"], default=q["default"], step=list(st),
+                                 requested_steps=[list(z) for z in steps], dataset_absent_in_that_snapshot=absent, trace=list(trace)),
+                            None if got in ("missing", "raised") else float(got), want))
+                        return
+
+        def resync():
+            """armi itself may assign followed parameters (a move stamps discharge / charge times): the followed state is what the
+            objects hold now. Returns True if that cannot be represented."""
+            from armi.reactor.parameters.parameterDefinitions import NEVER
+            for t in objs:
+                for x in objs[t]:
+                    for q in params[t]:
+                        pd_ = x.p.paramDefs[q["name"]]
+                        actual, sn_ = x.p[q["name"]], int(x.p.serialNum)
+                        if pd_.assigned != NEVER and (float(actual) != float(cur(sn_, q)) or q["id"] not in flagged):
+                            if not float(actual).is_integer():
+                                res["infra"] = f"armi left a non-integral value in followed parameter {t}.{q['name']}"
+                                return True
+                            live[(sn_, q["id"])] = int(actual)
+                            flagged.add(q["id"])
+                            emit(t, f"passign {sn_} {q['id']} {int(actual)}", "ok")
+                            trace.append(["assigned-by-armi", t, sn_, q["name"], int(actual)])
+            return False
+
+        def query(kind=None, force_now=False):
+            now = (int(r.p.cycle), int(r.p.timeNode))
+            kind = kind or rng.choice(["dbhist", "dbhists", "dbihist", "dbihists", "blockval", "dbhist", "dbihist", "preload", "dbhistall", "dbihistall"])
+            t = "HexBlock" if kind in ("blockval", "preload") else rng.choice(list(objs))
+            plist = rng.sample(params[t], rng.randint(1, len(params[t])))
+            if rng.random() < 0.7:       # always some never-yet-stored parameter in the request when there is one
+                late = [q for q in params[t] if q["id"] not in snaps[written[0]]["flagged"]]
+                if late and not any(q in plist for q in late):
+                    plist.append(rng.choice(late))
+            steps = rng.sample(written, rng.randint(1, len(written)))
+            if rng.random() < 0.6 and written[0] not in steps:
+                steps.insert(rng.randint(0, len(steps)), written[0])
+            bad = rng.random() < 0.04
+            if bad:
+                steps.insert(rng.randint(0, len(steps)), (7, 7))       # a step that was never written: KeyError
+            names, ids, sarg = [q["name"] for q in plist], common.intlist([q["id"] for q in plist]), None
+            if kind == "blockval":
+                x, q = rng.choice(objs[t]), plist[0]
+                ts = rng.choice(written + [now])
+                try:
+                    with common.quiet():
+                        v = hti.getBlockHistoryVal(x.getName(), q["name"], ts)
+                    ans = str(int(v))
+                except KeyError:
+                    v, ans = None, "reject"
+                emit(t, f"pblock {int(x.p.serialNum)} {q['id']} {ts[0]} {ts[1]}", ans, {"query": [kind, q["name"], list(ts)]})
+                judge(kind, t, x, [q], [ts], None if v is None else {q["name"]: {ts: v}}, True)
+                count("absent: query getBlockHistoryVal" + (" of the current, unwritten step" if ts not in snaps else ""))
+                return
+            if kind == "preload":
+                # HistoryTrackerInterface.preloadBlockHistoryVals(names, keys, timesteps), then getBlockHistoryVal answers from the
+                # preloaded histories: "the same results should be given if this method is not called"
+                xs = rng.sample(objs[t], rng.randint(1, len(objs[t])))
+                steps = [st for st in steps if st != (7, 7)]
+                with common.quiet():
+                    hti.preloadBlockHistoryVals([x.getName() for x in xs], names, list(steps))
+                try:
+                    for x in xs:
+                        for q in plist:
+                            for ts in steps:
+                                if ts == now and ts in snaps:
+                                    continue      # the current step, already written and possibly changed since: not judged
+                                try:
+                                    with common.quiet():
+                                        v = hti.getBlockHistoryVal(x.getName(), q["name"], ts)
+                                    ans = str(int(v))
+                                except KeyError:
+                                    v, ans = None, "reject"
+                                emit(t, f"pblock {int(x.p.serialNum)} {q['id']} {ts[0]} {ts[1]}", ans, {"query": [kind, q["name"], list(ts)]})
+                                judge(kind, t, x, [q], [ts], None if v is None else {q["name"]: {ts: v}}, True)
+                finally:
+                    hti.unloadBlockHistoryVals()
+                count("absent: query getBlockHistoryVal after preloadBlockHistoryVals")
+                return
+            if kind.endswith("all"):
+                # timeSteps=None: the FULL history (every written step, in order; through the interface also the current step)
+                x, via_dbi = rng.choice(objs[t]), kind.startswith("dbi")
+                with common.quiet():
+                    h = (dbi if via_dbi else db).getHistory(x, names)
+                emit(t, f"{'pdbiall' if via_dbi else 'pdball'} {int(x.p.serialNum)} {ids}", fmt(h, plist), {"query": [kind, names]})
+                judge(kind, t, x, plist, list(written) + ([now] if via_dbi and now not in written else []), h, via_dbi)
+                for q in plist:
+                    if sorted(k for k in h[q["name"]].keys() if k in snaps) != sorted(written):      # (the ORDER is compared with the model only)
+                        res["fails"].append(("history-full-lists-every-step", "a full history holds every written step",
+                                             dict(case0, via=kind, type=t, parameter=q["name"], trace=list(trace)),
+                                             [list(k) for k in h[q["name"]].keys()], [list(k) for k in sorted(written)]))
+                        break
+                count(f"absent: query {kind} (timeSteps=None)")
+                return
+            many = kind.endswith("s")
+            xs = rng.sample(objs[t], rng.randint(1, len(objs[t]))) if many else [rng.choice(objs[t])]
+            via_dbi = kind.startswith("dbi")
+            now_req = via_dbi and (force_now or rng.random() < 0.5)
+            if now_req and now not in steps:
+                steps.insert(rng.randint(0, len(steps)), now)
+            sarg = "[" + ",".join(f"[{a},{b}]" for a, b in steps) + "]"
+            target = dbi if via_dbi else db
+            try:
+                with common.quiet():
+                    if many:
+                        hs = target.getHistories(xs, names, list(steps))
+                    else:
+                        hs = {xs[0]: target.getHistory(xs[0], names, list(steps))}
+            except KeyError:
+                hs = None
+            for x in xs:
+                h = None if hs is None else hs[x]
+                emit(t, f"{'pdbi' if via_dbi else 'pdb'} {int(x.p.serialNum)} {ids} {sarg}", "reject" if h is None else fmt(h, plist),
+                     {"query": [kind, names, [list(z) for z in steps]]})
+                if not bad:
+                    judge(kind, t, x, plist, steps, h, via_dbi and now in steps)
+            count(f"absent: query {kind}" + (" (a step never written: refused)" if bad else ""))
+            if hs is None and not bad:
+                res["fails"].append(("history-request-raises", "a history over written steps and defined parameters is answered",
+                                     dict(case0, via=kind, type=t, parameters=names, steps=[list(z) for z in steps], trace=list(trace)),
+                                     "KeyError", None))
+
+        import h5py  # noqa
+        move_at = rng.randint(1, T - 1) if rng.random() < 0.6 else None
+        layouts_seen = set()
+        for ti, step in enumerate(times):
+            set_time(step)
+            for t in objs:
+                for q in params[t]:
+                    if q["control"]:
+                        assign_some(t, q, everyone=(ti == 0))
+                    elif q["first"] not in (None, "after") and q["first"] <= ti and (q["first"] == ti or rng.random() < 0.6):
+                        assign_some(t, q)
+            if ti == move_at:
+                # two assemblies trade places between two writes: the layout order (row of each object in every dataset) changes,
+                # identities do not
+                a1, a2 = rng.sample(list(r.core), 2)
+                loc1, loc2 = tuple(a1.spatialLocator.indices), tuple(a2.spatialLocator.indices)
+                with common.quiet():
+                    r.core.removeAssembly(a1, discharge=False)
+                    r.core.removeAssembly(a2, discharge=False)
+                    r.core.add(a1, r.core.spatialGrid[loc2])
+                    r.core.add(a2, r.core.spatialGrid[loc1])
+                trace.append(["swap", int(a1.p.serialNum), int(a2.p.serialNum)])
+                count("absent: two assemblies swapped between writes")
+                if resync():
+                    return res
+            if written and rng.random() < 0.35:
+                query()                     # the current step is not written yet
+            with common.quiet():
+                if rng.random() < 0.5:
+                    dbi.writeDBEveryNode()
+                else:
+                    db.writeToDB(r)
+            trace.append(["write", step[0], step[1]])
+            if resync():            # (what the writer itself assigned, if anything, is part of the state that was written)
+                return res
+            g = db.h5db[gname(*step)]
+            ltype = [x.decode() if isinstance(x, bytes) else str(x) for x in g["layout/type"][()]]
+            lser = [int(x) for x in g["layout/serialNum"][()]]
+            snaps[step] = {"v": {}, "flagged": set(flagged)}
+            for t in objs:
+                layout = [sn for sn, ty in zip(lser, ltype) if ty == t]
+                for x in objs[t]:
+                    for q in params[t]:
+                        snaps[step]["v"][(int(x.p.serialNum), q["id"])] = cur(int(x.p.serialNum), q)
+                emit(t, f"pwrite {common.intlist(layout)}", "ok")
+                layouts_seen.add((t, tuple(layout)))
+                # the precondition of this scenario class, verified on the file: no dataset for a parameter nobody has assigned yet
+                stored = [q["id"] for q in params[t] if q["name"] in g[t]]
+                emit(t, f"pstored {step[0]} {step[1]}", common.intlist(sorted(stored)), {"stored": stored})
+                for q in params[t]:
+                    if q["id"] not in flagged:
+                        if q["id"] in stored:
+                            res["infra"] = f"parameter {t}.{q['name']} was expected to be never-assigned but has a dataset"
+                            return res
+                        count("absent: dataset verified absent from a snapshot (parameter not yet assigned anywhere)")
+            written.append(step)
+            if ti >= 1 and rng.random() < 0.6:
+                query()
+        for t in objs:       # after the last write: the state moves on (the current step is written, its live values differ), and
+            for q in params[t]:          # some parameters get assigned only now
+                if q["first"] == "after" or q["control"]:
+                    assign_some(t, q, everyone=q["control"])
+        if rng.random() < 0.5:
+            nxt = (times[-1][0], times[-1][1] + 1)
+            set_time(nxt)
+        for _ in range(rng.randint(3, 5)):
+            query()
+        query("dbihistall")                       # through the interface the current step always carries the live value
+        query("dbihist", force_now=True)
+        query(rng.choice(["dbihists", "blockval", "dbhistall"]), force_now=True)
+        # ---- what LOADING the earliest snapshot yields (the reference the property names) for every followed (object, parameter)
+        with common.quiet():
+            r2 = db.load(written[0][0], written[0][1], cs=o.cs, bp=r.blueprints, allowMissing=True)
+        byser = {int(x.p.serialNum): x for x in [r2.core] + list(r2.core) + [b for a in r2.core for b in a]}
+        for t in objs:
+            for x in objs[t]:
+                for q in params[t]:
+                    sn = int(x.p.serialNum)
+                    got, want = float(byser[sn].p[q["name"]]), snaps[written[0]]["v"][(sn, q["id"])]
+                    if got != float(want):
+                        res["fails"].append(("load-yields-default-for-unstored-parameter", "loading a snapshot returns the state as of that write "
+                                             "(a parameter unset then reads as its default)", dict(case0, type=t, serial=sn, parameter=q["name"],
+                                                                                                   step=list(written[0])), got, want))
+        db.close(True)
+        if len({l for (t, l) in layouts_seen if t == "HexBlock"}) > 1:
+            count("absent: history whose snapshots list the blocks in different orders")
+        for t in objs:
+            res["streams"].append((reqs[t], impl[t], cases[t]))
+        res["canon"] = ("absent", hi, T, sum(len(v) for v in params.values()))
+        res["sample"] = {"steps": [list(z) for z in times], "parameters": {t: [(q["name"], q["default"], q["first"]) for q in params[t]] for t in params}}
+    except common.Infra as e:
+        res["infra"] = str(e)
+    except Exception as e:  # noqa
+        import traceback
+        res["fails"].append(("history-stream-raises", "writes and history requests over written steps succeed",
+                             dict(case0, trace=locals().get("trace", [])[-30:]), traceback.format_exc()[-900:], None))
+    finally:
+        for fn in os.listdir("."):
+            if fn.endswith(".h5"):
+                try:
+                    os.remove(fn)
+                except OSError:
+                    pass
+    return res
+
+
+def run_absent_jobs(jobs):
+    """Every history in a freshly forked child (maxtasksperchild=1): the parent's parameter definitions stay untouched, so every
+    history finds the same never-assigned parameters."""
+    import multiprocessing as mp, tempfile, shutil
+    base = tempfile.mkdtemp(prefix="c06abs-")
+    try:
+        n = max(1, min(4, int(os.environ.get("VERIF_JOBS", "4") or 4)))
+        try:
+            with mp.get_context("fork").Pool(n, initializer=_pool_init, initargs=(base,), maxtasksperchild=1) as pool:
+                return pool.map(absent_history, jobs, chunksize=1)
+        except (AssertionError, OSError, ImportError):
+            # no child processes available (e.g. inside a daemonic worker): in this process - the parameters each history uses up
+            # are then no longer fresh for the following ones, which pick others
+            here = os.getcwd()
+            os.chdir(base)
+            try:
+                return [absent_history(j) for j in jobs]
+            finally:
+                os.chdir(here)
+    finally:
+        shutil.rmtree(base, ignore_errors=True)
+
+
+def section_absent(ctx, only=None):
+    n = ctx.pick(10, 120)
+    jobs = [(ctx.rng.getrandbits(48), hi) for hi in range(n)] if only is None else [tuple(only)]
+    results = run_absent_jobs(jobs)
+    reqs, impl, cases = [], [], []
+    for job, res in zip(jobs, results):
+        if res["infra"]:
+            raise common.Infra("C06 absent-dataset stream: " + res["infra"])
+        for (rq, im, cs) in res["streams"]:
+            reqs += rq; impl += im; cases += cs
+        for k, v in res["counts"].items():
+            ctx.count(k, v)
+        for (key, clause, case, obs, exp) in res["fails"]:
+            ctx.fail(key, clause, case, observed=obs, expected=exp)
+        if res["canon"]:
+            ctx.case(res["canon"], sample=res["sample"] if job[1] == 0 else None)
+    model = lean_run("SnapStore", reqs)
+    ctx.compare("SnapStore.writeP/dbHistory/dbiHistory/blockHistoryVal vs Database/DatabaseInterface/HistoryTracker on HDF5", cases, model, impl)
+    ctx.evaluations += len(reqs)
+    ctx.traces += len(jobs)
 
 
 # --------------------------------------------------------------------------- (2) objects that move
@@ -606,11 +1041,35 @@ def crash_classes():
     return Boom, Fault
 
 
+QUIET = (4, 5)
+
+
+def gen_variant(rng, main=None):
+    """An interface stack around the fault: main (usually), the database interface, the fault, 0-2 bystanders, in a random order
+    (main before the database interface: it opens the file), with random enabled / bolForce / reverseAtEOL flags."""
+    ids = [DBI, FAULT] + [q for q in QUIET if rng.random() < 0.5]
+    rng.shuffle(ids)
+    if (rng.random() < 0.8) if main is None else main:
+        ids.insert(rng.randint(0, ids.index(DBI)), MAIN)
+    out = []
+    for i in ids:
+        e = {"id": i, "enabled": True, "bolForce": False, "reverse": rng.random() < 0.3, "coupler": False}
+        if i in QUIET or (i == FAULT and rng.random() < 0.2):
+            e["enabled"], e["bolForce"] = rng.random() < 0.6, rng.random() < 0.5
+        out.append(e)
+    return out
+
+
 def shape_cfg(shape, pos):
+    """pos: 0/1/2 = the fault before main / between main and database / after database in the plain stack; or a variant
+    (list of stack entries, see gen_variant)."""
     nC, bs, coupling, skip = shape
-    order = [MAIN, DBI]
-    order.insert(pos, FAULT)
-    stack = [{"id": i, "enabled": True, "bolForce": False, "reverse": False, "coupler": False} for i in order]
+    if isinstance(pos, list):
+        stack = [dict(e) for e in pos]
+    else:
+        order = [MAIN, DBI]
+        order.insert(pos, FAULT)
+        stack = [{"id": i, "enabled": True, "bolForce": False, "reverse": False, "coupler": False} for i in order]
     return {"detailed": False, "nCycles": nC, "burnSteps": [bs] * nC, "startCycle": 0, "startNode": 0, "stack": stack,
             "deferred": [], "deferredCycle": 0, "coupling": coupling, "maxIters": 2, "skip": list(skip), "halt": [], "conv": []}
 
@@ -636,7 +1095,24 @@ def real_crash(shape, pos, failAt, kind="exception"):
     if names != ["main", "database"]:
         raise common.Infra(f"unexpected default stack {names}")
     f = Fault(r, o.cs, failAt, kind)
-    o.addInterface(f, index=pos)
+    if isinstance(pos, list):
+        from armi import interfaces
+        from armi.bookkeeping.mainInterface import MainInterface
+        from armi.bookkeeping.db.databaseInterface import DatabaseInterface
+
+        class Quiet(interfaces.Interface):
+            name = "quiet"
+
+            def __init__(self, r, cs, ident):
+                self.name = f"quiet{ident}"
+                super().__init__(r, cs)
+        o.removeAllInterfaces()
+        for e in pos:
+            i = (MainInterface(r, o.cs) if e["id"] == MAIN else DatabaseInterface(r, o.cs) if e["id"] == DBI
+                 else f if e["id"] == FAULT else Quiet(r, o.cs, e["id"]))
+            o.addInterface(i, reverseAtEOL=e["reverse"], enabled=e["enabled"], bolForce=e["bolForce"])
+    else:
+        o.addInterface(f, index=pos)
     r.p.cycle, r.p.timeNode = 0, 0
     fn = o.cs.caseTitle + ".h5"
     if os.path.exists(fn):
@@ -731,6 +1207,11 @@ def section_crashes(ctx):
         for pos in (0, 1, 2):
             cfg = shape_cfg(shape, pos)
             plan.append((shape, pos, cfg))
+    # arbitrary stacks: bystanders, flags, orders, with and without main
+    for vi in range(ctx.pick(5, 30)):
+        shape = ctx.rng.choice(shapes)
+        var = gen_variant(ctx.rng, main=(vi % 3 != 2))      # every third one without main: the database interface opens the file
+        plan.append((shape, var, shape_cfg(shape, var)))
     runs = lean_run("Schedule", [c15.run_request(cfg) for _, _, cfg in plan])
     jobs, meta = [], []
     for si, ((shape, pos, cfg), line) in enumerate(zip(plan, runs)):
@@ -740,8 +1221,13 @@ def section_crashes(ctx):
         ref = c15.parse_log(c15.flat(c15.reference(cfg)))   # the independent reference schedule (oracle)
         sidx = shapes.index(shape)
         points = [(None, "exception")]
+        vk = ctx.rng.randint(0, 5) if isinstance(pos, list) else 0
         for K in range(1, len(fidx) + 1):
-            if ctx.thorough:
+            if isinstance(pos, list):
+                # a generated stack: every second (quick: every third) hook call of the fault, abort kind rotating
+                if (K + vk) % ctx.pick(3, 2) == 0:
+                    points.append((K, ABORT_KINDS[((K + vk) // 3 + vk) % 3]))
+            elif ctx.thorough:
                 # every hook call x every kind of abort (ordinary exception, sys.exit, KeyboardInterrupt)
                 points += [(K, kind) for kind in ABORT_KINDS]
             elif (K + pos + sidx) % 2 == 0:
@@ -757,17 +1243,21 @@ def section_crashes(ctx):
     for (shape, pos, K, kind, fidx, cfgargs, ref), (summ, calls, crashed, extra) in zip(meta, results):
         case = {"shape": list(shape), "fault_position": pos, "fail_at_call": K, "abort_kind": kind,
                 "fault_call": list(calls[-1]) if calls else None}
+        opener = MAIN if (not isinstance(pos, list) or any(e["id"] == MAIN for e in pos)) else DBI
         if K is None:
-            reqs.append(f"complete {MAIN} {FAULT} {cfgargs}")
+            reqs.append(f"complete {opener} {FAULT} {cfgargs}")
         else:
-            reqs.append(f"crash {MAIN} {FAULT} {fidx[K - 1]} {cfgargs}")   # the crash path does not depend on the kind
+            reqs.append(f"crash {opener} {FAULT} {fidx[K - 1]} {cfgargs}")   # the crash path does not depend on the kind
         impl.append(summ); cases.append(case)
         ctx.count("run shape: " + ("tight coupling, exempt cycles " + str(list(shape[3])) if shape[2] else "no coupling"))
-        posname = "before main" if pos == 0 else "before database" if pos == 1 else "after database"
+        posname = ("in a generated stack" if isinstance(pos, list) else
+                   "before main" if pos == 0 else "before database" if pos == 1 else "after database")
+        if isinstance(pos, list) and K is None:
+            ctx.count("generated stack: " + ("with main" if opener == MAIN else "without main (the database interface opens the file)"))
         ctx.count("crash point: " + (f"{calls[-1][0]} fault {posname}" if K else "complete run"))
         if K:
             ctx.count(f"abort kind: {kind}, fault {posname}")
-        ctx.case(("crash", tuple(shape), pos, K, kind), sample=dict(case, file=summ[:200]) if len(ctx.samples) < 5 and K else None)
+        ctx.case(("crash", tuple(shape), c15.stack_arg(pos) if isinstance(pos, list) else pos, K, kind), sample=dict(case, file=summ[:200]) if len(ctx.samples) < 5 and K else None)
         # ---- oracle, from the reference schedule and the fault interface's own record
         oracle_crash(ctx, case, shape, pos, K, ref, summ, calls, crashed, extra)
     model = lean_run("SnapStore", reqs)
@@ -789,7 +1279,7 @@ def oracle_crash(ctx, case, shape, pos, K, ref, summ, calls, crashed, extra):
             fcount += 1
             if K is not None and fcount == K:
                 break
-        if hook == "BOL" and ident == MAIN:
+        if hook == "BOL" and ident == (MAIN if (not isinstance(pos, list) or any(e["id"] == MAIN for e in pos)) else DBI):
             opened = True
         if ident == DBI and ((hook == "EveryNode" and not coupling) or hook == "DbWrite"):
             writes.append(gname(rc, rn))
@@ -833,14 +1323,181 @@ def oracle_crash(ctx, case, shape, pos, K, ref, summ, calls, crashed, extra):
                  case, observed=extra.get("error_state"), expected=(c, n, K))
 
 
+# --------------------------------------------------------------------------- (4) restart runs: history merged from an earlier database
+STAMP = 3
+
+
+def _stamp_class():
+    from armi import interfaces
+
+    class Stamp(interfaces.Interface):
+        """Stamps core.p.keff = offset + 100 * cycle + node at every node, before the database interface writes it."""
+        name = "stamp"
+
+        def __init__(self, r, cs, off):
+            super().__init__(r, cs)
+            self.off, self.calls = off, []
+
+        def interactEveryNode(self, c, n):
+            self.r.core.p.keff = float(self.off + 100 * c + n)
+            self.calls.append((int(c), int(n)))
+    return Stamp
+
+
+def history_settings(bs, detailed):
+    if detailed:
+        return {"nCycles": len(bs), "cycles": [{"step days": [1.5] * b, "power fractions": [1.0] * b} for b in bs],
+                "burnSteps": None, "cycleLength": None, "availabilityFactor": None}
+    return {"nCycles": len(bs), "burnSteps": bs[0]}
+
+
+def _restart_job(job):
+    """One real run of main + stamp + database: fresh (restart None) or restarted from `source` at (sc, sn)."""
+    import h5py
+    from armi.bookkeeping.db import Database
+    bs, detailed, coupling, off, source, restart = job
+    custom = dict(history_settings(bs, detailed), db=True, tightCoupling=coupling, tightCouplingMaxNumIters=1)
+    if restart is not None:
+        custom.update(reloadDBName=source, loadStyle="fromDB", startCycle=restart[0], startNode=restart[1])
+    out = {"error": None}
+    try:
+        o, r = load_small(custom)
+        for i in list(o.interfaces):
+            if i.name not in ("main", "database"):
+                o.removeInterface(i)
+        st = _stamp_class()(r, o.cs, off)
+        o.addInterface(st, index=1)
+        fn = o.cs.caseTitle + ".h5"
+        if os.path.exists(fn):
+            os.remove(fn)
+        with common.quiet():
+            with o:
+                o.operate()
+        out["calls"] = st.calls
+        with h5py.File(fn, "r") as h:
+            out["summary"] = group_summary(h, objs=("Core/keff",), ids=(0,))
+            out["success"] = bool(h.attrs["successfulCompletion"])
+        with Database(fn, "r") as d2:
+            out["steps"] = [tuple(x) for x in d2.genTimeSteps()]
+        if restart is None:
+            os.replace(fn, source)
+        else:
+            os.remove(fn)
+    except common.Infra:
+        raise
+    except Exception as e:  # noqa
+        import traceback
+        out["error"] = traceback.format_exc()[-700:]
+    try:
+        from armi import context
+        fp = context.getFastPath()
+        if os.path.isdir(fp) and os.path.abspath(fp) != os.path.abspath(os.getcwd()):
+            import shutil
+            shutil.rmtree(fp, ignore_errors=True)
+    except Exception:  # noqa
+        pass
+    return out
+
+
+def section_restart(ctx):
+    """A completed run, then the same case restarted from its database at EVERY later (cycle, node): the restart run's file must
+    hold the steps before the restart point exactly as the first run wrote them (merged, unchanged), every node from the
+    restart point on as the NEW run left it, plus the end-of-life state, and be marked successful."""
+    shapes = ctx.pick([([2, 2], False, False), ([1, 2, 1], True, True)],
+                      [([2, 2], False, False), ([1, 2, 1], True, True), ([1, 1, 1], False, True), ([3, 1], True, False), ([2, 2, 2], False, False)])
+    reqs, impl, cases = [], [], []
+    with common.scratch_dir() as base:
+        firsts = []
+        for si, (bs, detailed, coupling) in enumerate(shapes):
+            src = os.path.join(os.path.abspath(base), f"first{si}.h5")
+            firsts.append((bs, detailed, coupling, 1000, src, None))
+        first_res = run_generic_jobs(ctx, _restart_job, firsts, base)
+        jobs, meta = [], []
+        for si, ((bs, detailed, coupling), f0, fr) in enumerate(zip(shapes, firsts, first_res)):
+            nodes = [(c, n) for c in range(len(bs)) for n in range(bs[c] + 1)]
+            case = {"restart_shape": [bs, detailed, coupling], "restart": None}
+            want = "[" + ",".join(f"{gname(c, n)}:{c}:{n}:{c}:{n}:[[0,{1000 + 100 * c + n}]]" for c, n in nodes) \
+                   + f",{gname(*nodes[-1], 'EOL')}:{nodes[-1][0]}:{nodes[-1][1]}:{nodes[-1][0]}:{nodes[-1][1]}:[[0,{1000 + 100 * nodes[-1][0] + nodes[-1][1]}]]]"
+            if fr["error"] or fr.get("summary") != want or not fr.get("success"):
+                ctx.fail("complete-run-holds-every-node-plus-EOL", "a completed run is marked successful and holds every node plus the "
+                         "end-of-life state", case, observed=fr["error"] or [fr.get("summary"), fr.get("success")], expected=want)
+                continue
+            pts = nodes[1:]
+            if not ctx.thorough and len(pts) > 4:      # quick: the first node of a later cycle, a mid-cycle node, the last node + one more
+                keep = {pts[0], pts[-1]} | {p_ for p_ in pts if p_[1] == 0} | {p_ for p_ in pts if p_[1] > 0 and p_[0] > 0}
+                pts = [p_ for p_ in pts if p_ in keep]
+            for pt in pts:
+                jobs.append((bs, detailed, coupling, 5000, f0[4], pt))
+                meta.append((bs, detailed, coupling, nodes, pt))
+        results = run_generic_jobs(ctx, _restart_job, jobs, base)
+    def rcfg(bs, detailed, coupling, bolset):
+        stack = [{"id": i, "enabled": True, "bolForce": False, "reverse": False, "coupler": False} for i in (MAIN, STAMP, DBI)]
+        return {"detailed": detailed, "nCycles": len(bs), "burnSteps": bs, "startCycle": 0, "startNode": 0, "stack": stack,
+                "deferred": [], "deferredCycle": 0, "coupling": coupling, "maxIters": 1, "skip": [], "halt": [], "conv": [],
+                "bolSet": bolset}
+    for (bs, detailed, coupling, nodes, pt), res in zip(meta, results):
+        case = {"restart_shape": [bs, detailed, coupling], "restart": list(pt)}
+        if not res["error"]:
+            # model: SnapStore.fileAfterRun of the restarted run, opened with the history merged from the first run's file
+            reqs.append(f"restart 1000 5000 {pt[0]} {pt[1]} {MAIN} " + c15.run_request(rcfg(bs, detailed, coupling, None))[4:] + " "
+                        + c15.run_request(rcfg(bs, detailed, coupling, [MAIN, pt[0], pt[1]]))[4:])
+            impl.append(f"work=T success={tf(res['success'])} open=F {res['summary']}"); cases.append(case)
+        ctx.case(("restart", tuple(bs), detailed, coupling, pt), sample=dict(case, file=(res.get("summary") or "")[:160]) if pt == nodes[1] else None)
+        ctx.count("restart run: from " + ("the first node of a cycle" if pt[1] == 0 else "the last node of a cycle" if pt[1] == bs[pt[0]] else "a mid-cycle node")
+                  + (", tight coupling" if coupling else ""))
+        if res["error"]:
+            ctx.fail("restart-run-raises", "a run restarted from the database of a completed run of the same case completes", case,
+                     observed=res["error"])
+            continue
+        def line(c, n, off, label=""):
+            return f"{gname(c, n, label)}:{c}:{n}:{c}:{n}:[[0,{off + 100 * c + n}]]"
+        lines = [line(c, n, 1000 if (c, n) < pt else 5000) for c, n in nodes] + [line(nodes[-1][0], nodes[-1][1], 5000, "EOL")]
+        want = "[" + ",".join(sorted(lines)) + "]"
+        got = res["summary"]
+        if got != want:
+            earlier = [l for l in lines if l.split(":")[-1].startswith("[[0,1")]
+            key = ("restart-merged-history-exact" if any(l not in got for l in earlier) or got.count("[[0,1") != len(earlier)
+                   else "restart-run-holds-every-later-node-plus-EOL")
+            ctx.fail(key, "a restart copies exactly the steps before the restart point, unchanged; the finished run then holds every "
+                     "node from the restart point on plus the end-of-life state", case, observed=got, expected=want)
+        if not res["success"]:
+            ctx.fail("complete-run-marked-successful", "a completed run is marked successful", case, observed=res["success"])
+        if res["steps"] != nodes + [nodes[-1]]:
+            ctx.fail("listing-exact-sorted", "every written snapshot and nothing else is listed, in chronological order", case,
+                     observed=res["steps"], expected=nodes + [nodes[-1]])
+        if res["calls"] != [x for x in nodes if x >= pt]:
+            ctx.fail("restart-run-visits-nodes-from-restart-point", "the restarted run visits every node from the restart point on, once, in order",
+                     case, observed=res["calls"], expected=[x for x in nodes if x >= pt])
+    model = lean_run("SnapStore", reqs)
+    ctx.compare("SnapStore.fileAfterRun (opened = restartStore) vs a real restart run on HDF5", cases, model, impl)
+    ctx.traces += len(meta)
+
+
+def run_generic_jobs(ctx, fn, jobs, base):
+    n = int(os.environ.get("VERIF_JOBS", "4") or 4)
+    if n > 1 and len(jobs) > 1:
+        try:
+            import multiprocessing as mp
+            with mp.get_context("fork").Pool(min(n, len(jobs)), initializer=_pool_init, initargs=(base,)) as pool:
+                return pool.map(fn, jobs, chunksize=1)
+        except Exception as e:  # noqa
+            ctx.say(f"job pool unavailable ({e!r}); running serially")
+    return [fn(j) for j in jobs]
+
+
 def run(ctx):
     common.import_armi()
+    section_absent(ctx)        # first: needs parameters nothing in this process has assigned yet
     section_histories(ctx)
     section_moves(ctx)
     section_serials(ctx)
     section_crashes(ctx)
+    section_restart(ctx)
     ctx.rule = ("(1) fixed + generated histories of open/set/write[label]/load/steps/history/merge/split/close on a real Database "
                 "(one case = one history; every op's answer compared with the stateful model and judged by the shadow-record oracle); "
+                "(1b) forked-child histories in which never-assigned parameters become assigned at random steps, every step written, "
+                "histories requested over random subsets of steps x parameters through five entry points (one case = one history); "
+                "(4) a completed run restarted from its own database at every later node (one case = one restart run and its file); "
                 "(2) reference reactor with two assemblies swapped between writes, block and assembly histories; (3) EVERY hook call of a "
                 "fault-injecting interface at EVERY stack position (quick: every second call per position, offset so that every call is hit "
                 "at some position, abort kind rotating; thorough: every call x every abort kind) - in the sense: EVERY stack position (before main, between main and database, after database) for each run "
@@ -853,6 +1510,7 @@ def search(ctx, disagreements, broken):
     sub = type(ctx)(ctx.prop, ctx.tier, ctx.seed + 1000)
     out = []
     try:
+        section_absent(sub)
         section_histories(sub)
         section_crashes(sub)
     except common.Infra:
@@ -866,7 +1524,10 @@ def replay(ctx, payload):
     key, case = payload.get("key"), payload.get("case", {})
     sub = type(ctx)(ctx.prop, "quick", ctx.seed)
     common.import_armi()
-    if isinstance(case, dict) and "ops" in case:
+    if isinstance(case, dict) and "absent_history" in case:
+        with common.scratch_dir():
+            section_absent(sub, only=case["absent_history"])
+    elif isinstance(case, dict) and "ops" in case:
         with common.scratch_dir():
             o, r = load_small()
             real = RealHistory(o, r, 0)
@@ -877,6 +1538,8 @@ def replay(ctx, payload):
                 real.op(sub, op)
                 if getattr(real, "broken", False):
                     break
+    elif isinstance(case, dict) and "restart_shape" in case:
+        section_restart(sub)
     elif isinstance(case, dict) and "shape" in case:
         shape, pos, K = tuple(case["shape"]), case["fault_position"], case["fail_at_call"]
         cfg = shape_cfg(shape, pos)
